@@ -362,12 +362,14 @@ func runSLIter(env *Env) {
 				if !stable[o.key] {
 					var delOK, insOK bool
 					for _, e := range byKey[o.key] {
-						if e.call <= o.ret && p.call <= e.ret {
-							if e.ins {
-								insOK = true
-							} else {
-								delOK = true
-							}
+						// the re-insert lies between the two deliveries; the delete may have
+						// completed before the first delivery (an iterator may return an item
+						// that was present when the scan started and is unlinked under it)
+						if e.ins && e.call <= o.ret && p.call <= e.ret {
+							insOK = true
+						}
+						if !e.ins && e.call <= o.ret && sc.call <= e.ret {
+							delOK = true
 						}
 					}
 					reins = delOK && insOK
